@@ -617,6 +617,11 @@ func (g *gen) step() {
 			if r.Chance(5) {
 				msat = uint64(1 + r.Intn(999)) // below one sat
 			}
+			if mm := env.Opts.Limits.MeltingSettings.MaxAmount; mm > 0 && r.Chance(35) {
+				// around the configured melt maximum, with and without a sub-sat remainder (the quote burns the amount
+				// rounded UP to whole sats: max*1000+1 msat is already over the maximum)
+				msat = []uint64{mm * 1000, mm*1000 + 1, mm*1000 + 999, mm*1000 + 1000, mm*1000 - 1, mm*1000 + uint64(1+r.Intn(999))}[r.Intn(6)]
+			}
 			li, err := env.LN.makeInvoice(msat, true)
 			if err != nil {
 				return
@@ -625,7 +630,9 @@ func (g *gen) step() {
 			g.ext = append(g.ext, li)
 			inv = li
 		}
-		if inv != nil && r.Chance(25) {
+		if mm := env.Opts.Limits.MeltingSettings.MaxAmount; inv != nil && env.Opts.MPP && mm > 0 && inv.msat > mm*1000+1000 && r.Chance(30) {
+			mpp = mm*1000 + uint64(r.Intn(1001)) // an MPP part around the melt maximum
+		} else if inv != nil && r.Chance(25) {
 			switch r.Intn(4) {
 			case 0:
 				mpp = inv.msat // not less
